@@ -5,6 +5,7 @@ import (
 	"errors"
 	"fmt"
 	cosmos_proto "github.com/cosmos/cosmos-proto"
+	"google.golang.org/protobuf/types/known/structpb"
 	"strings"
 
 	"github.com/cosmos/cosmos-proto/anyutil"
@@ -182,6 +183,21 @@ func checkPack(h *hz.H, md protoreflect.MessageDescriptor, d protoreflect.Messag
 			h.Sample(map[string]interface{}{"kind": "pack/unpack", "type": tname, "value": label, "options": on, "type_url": dst.TypeUrl, "value_hex": fmt.Sprintf("%x", dst.Value)})
 		}
 	}
+}
+
+func firstScalar(md protoreflect.MessageDescriptor) protoreflect.FieldDescriptor {
+	fs := md.Fields()
+	for i := 0; i < fs.Len(); i++ {
+		if fd := fs.Get(i); fd.Message() == nil && !fd.IsList() && !fd.IsMap() && fd.ContainingOneof() == nil && fd.Kind() != protoreflect.EnumKind {
+			return fd
+		}
+	}
+	return nil
+}
+
+func sampleScalar(fd protoreflect.FieldDescriptor) protoreflect.Value {
+	al := enum.ScalarAlphabet(fd, enum.Reduced)
+	return al[1]
 }
 
 func typeResolversForExt() map[string]protoregistry.MessageTypeResolver {
@@ -382,6 +398,66 @@ func runC16(h *hz.H) {
 		}
 	}
 	h.Rep.Bounds["big_map_messages"] = bigMaps
+	// (1e) deeply nested messages (chains of 12, 40 and 200 levels along every directly self-referential singular field,
+	// and google.protobuf.Struct values nested 6 and 20 objects deep): packing and unpacking do not depend on the depth
+	// (far below protobuf-go's limit), through both unpack paths
+	{
+		deep := 0
+		var srcs []proto.Message
+		var lbls []string
+		for _, md := range types {
+			fs := md.Fields()
+			for i := 0; i < fs.Len(); i++ {
+				fd := fs.Get(i)
+				if fd.Message() == nil || fd.Message().FullName() != md.FullName() || fd.IsList() || fd.IsMap() || fd.ContainingOneof() != nil {
+					continue
+				}
+				for _, levels := range []int{12, 40, 200} {
+					top := enum.NewDyn(md)
+					cur := protoreflect.Message(top)
+					for l := 1; l < levels; l++ {
+						cur = cur.Mutable(fd).Message()
+					}
+					if sf := firstScalar(md); sf != nil {
+						cur.Set(sf, sampleScalar(sf))
+					}
+					srcs = append(srcs, enum.BuildGo(top))
+					lbls = append(lbls, fmt.Sprintf("%s nested %d levels along %s", md.FullName(), levels, fd.Name()))
+				}
+				break
+			}
+		}
+		for _, objects := range []int{6, 20} {
+			v, _ := structpb.NewStruct(map[string]interface{}{"leaf": 1.0})
+			for o := 1; o < objects; o++ {
+				v = &structpb.Struct{Fields: map[string]*structpb.Value{"o": structpb.NewStructValue(v)}}
+			}
+			srcs = append(srcs, v)
+			lbls = append(lbls, fmt.Sprintf("google.protobuf.Struct nested %d objects", objects))
+		}
+		for i, src := range srcs {
+			tname := string(src.ProtoReflect().Descriptor().FullName())
+			c := c16case{Kind: "pack-deep", Type: tname, Src: lbls[i]}
+			h.Eval(true, hz.Hash("C16deep", lbls[i]))
+			deep++
+			a, err := anyutil.New(src)
+			if err != nil || a.TypeUrl != "/"+tname {
+				h.Violate("C16/pack/deep/failed", fmt.Sprintf("anyutil.New(%s): err=%v", lbls[i], err), c)
+				continue
+			}
+			for rn, tr := range map[string]protoregistry.MessageTypeResolver{"nil(global)": nil, "empty": &protoregistry.Types{}} {
+				var m proto.Message
+				var uerr error
+				p := hz.Catch(func() { m, uerr = anyutil.Unpack(a, nil, tr) })
+				if p != nil || uerr != nil || m == nil || !proto.Equal(src, m) {
+					cc := c
+					cc.TypeRes = rn
+					h.Violate("C16/unpack/deep", fmt.Sprintf("Unpack(Pack(%s)) with type resolver %s: panic=%v err=%v equal=%v", lbls[i], rn, p, uerr, m != nil && proto.Equal(src, m)), cc)
+				}
+			}
+		}
+		h.Rep.Bounds["deeply_nested_packs"] = deep
+	}
 	// (1d) messages carrying populated extension fields (descriptor options with cosmos_proto's custom options): both
 	// unpack paths return a message equal to the source, with the extension fields as fields (not as unknown bytes),
 	// whatever type resolver is handed in
